@@ -61,8 +61,8 @@ def _sc_data(draw, recipe, zero=False):
             e.update(s_sc_max_mva=s, s_sc_min_mva=round(s * draw(q(0.3, 1.0, nd=2)), 4),
                      rx_max=draw(q(0.0, 0.6, nd=2)), rx_min=draw(q(0.0, 0.6, nd=2)))
             if zero:
-                e.update(r0x0_max=draw(q(0.05, 0.5, nd=2)), x0x_max=draw(q(0.5, 3.0, nd=1)),
-                         r0x0_min=draw(q(0.05, 0.5, nd=2)), x0x_min=draw(q(0.5, 3.0, nd=1)))
+                e.update(r0x0_max=draw(q(0.05, 0.5, nd=2)), x0x_max=draw(q(0.1, 1.0, nd=2)),
+                         r0x0_min=draw(q(0.05, 0.5, nd=2)), x0x_min=draw(q(0.1, 1.0, nd=2)))
         elif t == "impedance":
             # reciprocal impedances only: IEC 60909 (and its bound on the peak factor) knows no direction-dependent branch
             e.pop("rtf_pu", None)
@@ -77,16 +77,12 @@ def _sc_data(draw, recipe, zero=False):
                          x0_ohm_per_km=round(e["x_ohm_per_km"] * draw(q(2.0, 4.0, nd=1)), 5),
                          c0_nf_per_km=round(e["c_nf_per_km"] * draw(q(0.4, 1.0, nd=1)), 3))
         elif t == "trafo" and zero:
-            e.update(vector_group=draw(st.sampled_from(["Dyn", "Dyn", "YNyn", "Yzn", "YNd", "Yyn", "YNy", "Yy", "Dd"])),
+            # the vector groups documented in doc/elements/trafo_par.csv
+            e.update(vector_group=draw(st.sampled_from(["Dyn", "Dyn", "YNyn", "Yzn", "Yyn"])),
                      vk0_percent=round(e["vk_percent"] * draw(q(0.8, 1.0, nd=2)), 4),
                      mag0_percent=float(draw(st.sampled_from([100, 100, 50, 10]))), mag0_rx=draw(q(0.0, 0.3, nd=2)),
                      si0_hv_partial=draw(q(0.1, 0.9, nd=1)))
             e["vkr0_percent"] = round(min(e["vkr_percent"], e["vk0_percent"]) * draw(q(0.8, 1.0, nd=2)), 4)
-        elif t == "trafo3w" and zero:
-            e.update(vector_group=draw(st.sampled_from(["YNynd", "YNyd", "Yynd", "YNdd", "Ydyn", "Yyy"])))
-            for sd in ("hv", "mv", "lv"):
-                e["vk0_%s_percent" % sd] = e["vk_%s_percent" % sd]
-                e["vkr0_%s_percent" % sd] = e["vkr_%s_percent" % sd]
         elif t == "gen":
             sn = round(LEVELS[vn]["s"] * draw(q(0.5, 6.0, nd=1)), 4)
             vg = round(vn * draw(st.sampled_from([1.0, 1.0, 1.05, 0.95])), 6)
@@ -118,6 +114,8 @@ def _sc_data(draw, recipe, zero=False):
 def _case(draw, tier):
     recipe = draw(netgen.grid(PROFILE))
     fault = draw(st.sampled_from(["3ph", "3ph", "3ph", "2ph", "2ph", "1ph"]))
+    if fault == "1ph" and any(e["t"] == "trafo3w" for e in recipe["el"]):
+        fault = "2ph"       # zero-sequence data of three-winding transformers are not documented (doc/elements/trafo3w_par.csv)
     recipe = draw(_sc_data(recipe, zero=fault == "1ph" or draw(st.integers(0, 3)) == 0))
     nb = len(recipe["buses"])
     opt = {"case": draw(st.sampled_from(["max", "min"])),
@@ -219,6 +217,47 @@ def compare_rows(res, what, base, other, buses, opt, rtol=1e-9, **detail):
                 break
 
 
+def floating_zero_sequence(net, ref):
+    """True when a supplied bus lies in a zero-sequence island without any connection to earth (no ext_grid / gen, no line
+    with c0 > 0, no earthed transformer winding, no impedance with zero-sequence shunt part): Z0 is infinite there and
+    pandapower's zero-sequence admittance matrix is singular up to the 1e-20 p.u. placeholders of open windings"""
+    n = ref.Y.shape[0]
+    par = list(range(n))
+
+    def find(a):
+        while par[a] != a:
+            par[a] = par[par[a]]
+            a = par[a]
+        return a
+    earthed = set()
+    for kind, idx, where, z in ref.parts:
+        if not isinstance(where, tuple):
+            if kind in ("ext_grid", "gen"):
+                earthed.add(where)
+            continue
+        a, b = where
+        through = True
+        if kind == "line":
+            if float(net.line.at[idx, "c0_nf_per_km"]) > 0:
+                earthed.update((a, b))
+        elif kind == "trafo":
+            vg = str(net.trafo.at[idx, "vector_group"]).lower()
+            through = vg == "ynyn"
+            earthed.add(b)
+            if through:
+                earthed.add(a)
+        elif kind == "impedance":
+            im = net.impedance
+            if any(c in im.columns and float(im.at[idx, c] or 0) != 0 for c in ("gf0_pu", "bf0_pu", "gt0_pu", "bt0_pu")):
+                earthed.update((a, b))
+        if through:
+            ra, rb = find(a), find(b)
+            if ra != rb:
+                par[max(ra, rb)] = min(ra, rb)
+    ok = {find(k) for k in earthed}
+    return any(find(k) not in ok for k in ref.live)
+
+
 def check(case):
     from pbt.c18_refsc import RefSC, c_factors
     res = Result()
@@ -232,18 +271,23 @@ def check(case):
     zf = complex(opt["r_fault_ohm"], opt["x_fault_ohm"])
     if zf != 0:
         res.label("fault-impedance")
+    # ---- independent model (from the input tables only)
+    ref = RefSC(net, case=opt["case"], lv_tol_percent=opt["lv_tol_percent"])
+    zk_ref = ref.solve()
+    two = opt["fault"] == "2ph"
+    one = opt["fault"] == "1ph"
+    floating = one and floating_zero_sequence(net, ref)
+    yzn = one and any(kind == "trafo" and str(net.trafo.at[idx, "vector_group"]).lower() == "yzn" for kind, idx, w, z in ref.parts)
+    if floating:
+        res.label("floating-zero-seq-island")
     try:
         base = run_sc(net, buses, opt)
     except (ValueError, UserWarning, NotImplementedError) as e:
         res.skipped = "rejected:" + exc_sig(e)
         return res
     except Exception as e:
-        res.fail("crash/" + exc_sig(e), error=repr(e)[:300], opt=opt)
+        res.fail("1ph/floating-zero-seq-island" if floating else "crash/" + exc_sig(e), error=repr(e)[:300], opt=opt)
         return res
-
-    # ---- independent model
-    ref = RefSC(net, case=opt["case"], lv_tol_percent=opt["lv_tol_percent"])
-    zk_ref = ref.solve()
     sgen_on = bool(len(net.sgen)) and bool((net.sgen.in_service & net.bus.in_service.reindex(net.sgen.bus).values).any())
     cur_src = sgen_on and opt["case"] == "max"
     if cur_src:
@@ -271,10 +315,7 @@ def check(case):
         not any(kind == "ext_grid" and z.real == 0 for kind, idx, where, z in ref.parts)
     if zc_ref is not None:
         res.label("kappa-C-exact" if kappa_c_clean else "kappa-C-range-only")
-    kinds_sig = "+".join(sorted(ref.has - {"ext_grid", "line"})) or "basic"
     finite = 0
-    two = opt["fault"] == "2ph"
-    one = opt["fault"] == "1ph"
     for b in faulted:
         row = base.get(int(b))
         if row is None:
@@ -293,6 +334,7 @@ def check(case):
             res.fail("supplied/ikss-nan", bus=b, row=row, zk_ref=zr)
             continue
         finite += 1
+        kinds_sig = "+".join(sorted(ref.kinds_at(b) - {"ext_grid", "line"})) or "basic"      # what feeds this fault
         zk = complex(row["rk_ohm"], row["xk_ohm"])
         # (ii) Thevenin impedance
         zexp = zr + zf
@@ -307,7 +349,7 @@ def check(case):
         else:
             ik1 = c * un / ((2.0 if two else math.sqrt(3.0)) * abs(zk))
         if not cur_src:
-            if not _rel(row["ikss_ka"], ik1, 1e-9):
+            if not _rel(row["ikss_ka"], ik1, 1e-9, 1e-12):
                 res.fail("ikss/same-row/%s" % opt["fault"], bus=b, ikss=row["ikss_ka"], expected=ik1, c=c, row=row)
         elif row["ikss_ka"] < ik1 * (1 - 1e-9):
             res.fail("ikss/below-voltage-source-share", bus=b, ikss=row["ikss_ka"], ikss1=ik1)
@@ -367,6 +409,16 @@ def check(case):
         compare_rows(res, "sn_mva", base, other, faulted, opt, sn_mva=[recipe["sn_mva"], case["sn2"]])
     except Exception as e:
         res.fail("variant-crash/" + exc_sig(e), error=repr(e)[:300], opt=opt)
+    if one:
+        # root causes that are facts about the input: an unearthed zero-sequence island makes every 1ph figure arbitrary;
+        # the zero-sequence admittance of a Yzn transformer is multiplied by net.sn_mva
+        for k, (sig, detail) in enumerate(res.failures):
+            if sig.startswith("zk/"):
+                continue
+            if floating:
+                res.failures[k] = ("1ph/floating-zero-seq-island", dict(detail, was=sig))
+            elif yzn and sig.startswith("invariance/sn_mva/"):
+                res.failures[k] = ("1ph/sn_mva/yzn-trafo", dict(detail, was=sig))
     res.nontrivial = finite > 0 and bool(ref.has & {"trafo", "gen"})
     res.label("levels:%d" % net.bus.vn_kv.nunique())
     return res
